@@ -2,6 +2,7 @@ package PVM
 
 import (
 	"bytes"
+	"math"
 
 	"github.com/New-JAMneration/JAM-Protocol/internal/service_account"
 	"github.com/New-JAMneration/JAM-Protocol/internal/types"
@@ -263,7 +264,8 @@ func new(input OmegaInput) (output OmegaOutput) {
 	}
 
 	// otherwise if f ≠ 0 and x_s ≠ (x_u)_m
-	if f != 0 && input.Addition.ResultContextX.ServiceID != input.Addition.ResultContextY.PartialState.Bless {
+	// the manager is read from the working context x (x_e)_m, not from the checkpoint y
+	if f != 0 && input.Addition.ResultContextX.ServiceID != input.Addition.ResultContextX.PartialState.Bless {
 		input.VM.Registers[7] = HUH
 		return OmegaOutput{
 			ExitReason: ExitContinue,
@@ -284,7 +286,7 @@ func new(input OmegaInput) (output OmegaOutput) {
 			MinItemGas:           types.Gas(g),                            // g
 			MinMemoGas:           types.Gas(m),                            // m
 			CreationSlot:         input.Addition.AccumulateArgs.Timeslot,  // r
-			DepositOffset:        types.U64(0),                            // f
+			DepositOffset:        types.U64(f),                            // f
 			LastAccumulationSlot: types.TimeSlot(0),                       // a
 			ParentService:        input.Addition.ResultContextX.ServiceID, // p
 		},
@@ -307,7 +309,9 @@ func new(input OmegaInput) (output OmegaOutput) {
 	newBalance := s.ServiceInfo.Balance - at
 	// otherwise if s_b < (x_s)_t, transfer a_t tokens to new service, so need to check balance(b) > minBalance()
 	minBalance := service_account.CalcThresholdBalance(s.ServiceInfo.Items, s.ServiceInfo.Bytes, s.ServiceInfo.DepositOffset)
-	if newBalance < minBalance {
+	// (x_s)_b - a_t is taken over the integers: a creator that cannot even afford a_t must
+	// not wrap around to a huge balance and pass the threshold test
+	if s.ServiceInfo.Balance < at || newBalance < minBalance {
 		input.VM.Registers[7] = CASH
 		return OmegaOutput{
 			ExitReason: ExitContinue,
@@ -426,7 +430,9 @@ func transfer(input OmegaInput) (output OmegaOutput) {
 	}
 	// m
 	rawData := input.VM.Memory.Read(o, types.TransferMemoSize)
-	if accountD, accountExists := input.Addition.ResultContextX.PartialState.ServiceAccounts[types.ServiceID(d)]; !accountExists {
+	// d is a 64-bit register: values beyond the service-id range name no service
+	// (truncating them would credit an unrelated account)
+	if accountD, accountExists := input.Addition.ResultContextX.PartialState.ServiceAccounts[types.ServiceID(d)]; !accountExists || d > math.MaxUint32 {
 		// not exist
 		input.VM.Registers[7] = WHO
 		return OmegaOutput{
